@@ -16,6 +16,10 @@ const MaxFieldNum = 536870911
 //     file a reserved name is written as an identifier (`reserved name;`)
 //   - enum values carry their own numbers
 //   - string / bytes defaults are quoted, every other default is written as is
+//   - field options in brackets in the order default, json_name, deprecated, custom options
+//   - `option allow_alias = true;` is the first statement of an enum with Alias
+//   - a group is two declarations: its message (Grp) and its field (Gof = index of the message,
+//     Type = the message's name); they are rendered as one `label group Name = num { ... }`
 
 func rangeText(r [2]int) string {
 	if r[1] == MaxFieldNum {
@@ -59,6 +63,19 @@ func (r *fileRenderer) typeX(d int, dl *Decl) {
 	}
 }
 
+// groupX renders `label group Name = num { body of the group's message }` for a field with Gof set.
+func (r *fileRenderer) groupX(d int, ind string) {
+	dl := &r.f.Decls[d-1]
+	g := &r.f.Decls[dl.Gof-1]
+	r.w.put(ind)
+	if dl.Label != "" {
+		r.w.put(dl.Label + " ")
+	}
+	r.w.put(fmt.Sprintf("group %s = %d {\n", g.Name, dl.Num))
+	r.messageBody(dl.Gof, ind+"  ")
+	r.w.put(ind + "}\n")
+}
+
 func (r *fileRenderer) fieldLineX(d int, ind string) {
 	dl := &r.f.Decls[d-1]
 	r.w.put(ind)
@@ -83,6 +100,9 @@ func (r *fileRenderer) fieldLineX(d int, ind string) {
 	}
 	if dl.Json != "" {
 		pre = append(pre, "json_name = \""+dl.Json+"\"")
+	}
+	if dl.Dep {
+		pre = append(pre, "deprecated = true")
 	}
 	if len(pre) > 0 || len(dl.Opts) > 0 {
 		r.w.put(" [" + strings.Join(pre, ", "))
@@ -139,7 +159,9 @@ func CanonX(f *File) map[string]string {
 		switch dl.Kind {
 		case "message":
 			out[key] = fmt.Sprintf("xr=%s rr=%s rn=%s opts=%s", rangesText(dl.XR), rangesText(dl.RR), strings.Join(dedupe(dl.RN), ","), optNames(dl.Opts))
-		case "enum", "oneof", "service":
+		case "enum":
+			out[key] = fmt.Sprintf("alias=%v opts=%s", dl.Alias, optNames(dl.Opts))
+		case "oneof", "service":
 			out[key] = "opts=" + optNames(dl.Opts)
 		case "value":
 			out[key] = fmt.Sprintf("num=%d opts=%s", dl.Num, optNames(dl.Opts))
@@ -162,7 +184,11 @@ func CanonX(f *File) map[string]string {
 			if dl.Kind == "ext" {
 				ext = dl.Extendee.String()
 			}
-			out[key] = fmt.Sprintf("num=%d label=%s type=%s extendee=%s dflt=%s json=%s opts=%s", dl.Num, label, typ, ext, dl.Dflt, dl.Json, optNames(dl.Opts))
+			dep := ""
+			if dl.Dep {
+				dep = "true"
+			}
+			out[key] = fmt.Sprintf("num=%d label=%s type=%s extendee=%s dflt=%s json=%s dep=%s opts=%s", dl.Num, label, typ, ext, dl.Dflt, dl.Json, dep, optNames(dl.Opts))
 		case "method":
 			out[key] = fmt.Sprintf("input=%s output=%s cs=%v ss=%v opts=%s", dl.Input.String(), dl.Output.String(), dl.CS, dl.SS, optNames(dl.Opts))
 		}
